@@ -45,7 +45,7 @@ F64 = z3.Float64()
 # floating point; when it answers unknown we re-ask a fresh z3 solver (default tactic pipeline) and then cvc5.
 import crosshair.statespace as _ss   # noqa: E402
 from crosshair.util import UnknownSatisfiability   # noqa: E402
-PORTFOLIO = {'fallbacks': 0, 'fallback_s': 0.0, 'timeout_s': 60.0, 'backends': set()}
+PORTFOLIO = {'fallbacks': 0, 'fallback_s': 0.0, 'timeout_s': 60.0 * float(os.environ.get('VERIF_PROVE_SCALE', '1') or 1), 'backends': set()}
 
 
 def _solver_is_sat(solver, *exprs):
@@ -357,6 +357,7 @@ class Sym(BaseSym):
             assert isinstance(cond, SymbolicBool), type(cond)
             self.obligations += 1
             t0 = time.time()
+            scale = float(os.environ.get('VERIF_PROVE_SCALE', '1') or 1)      # the runner retries an undecided harness once with longer solver timeouts
             # 1. as an unconditional identity (no path condition at all: stronger, and much easier for nlsat)
             res, backend = 'unknown', 'none'
             if self.B.get('prove_identity_first', True):
@@ -370,15 +371,15 @@ class Sym(BaseSym):
                 for sub in portfolio.relevance_subsets(list(self.space.solver.assertions()), [cond.var], excl,
                                                        hops=self.B.get('prove_relevance_hops', (1, 2))):
                     res, backend = portfolio.check_unsat(sub + [z3.Not(cond.var)], use_cvc5=self.B.get('prove_relevance_cvc5', False),
-                                                         timeout_s=self.B.get('prove_relevance_timeout', 10))
+                                                         timeout_s=scale * self.B.get('prove_relevance_timeout', 10))
                     if res == 'unsat':
                         break
                     res = 'unknown'
             # 2. under the path condition (sliced to the cone of influence)
             if res != 'unsat':
                 res, backend = portfolio.check_unsat(list(self.space.solver.assertions()), extra=[z3.Not(cond.var)],
-                                                     timeout_s=self.B.get('prove_timeout', 60), order=self.B.get('prove_order', 'z3'),
-                                                     z3_timeout_s=self.B.get('prove_z3_timeout'))
+                                                     timeout_s=scale * self.B.get('prove_timeout', 60), order=self.B.get('prove_order', 'z3'),
+                                                     z3_timeout_s=(scale * self.B['prove_z3_timeout']) if self.B.get('prove_z3_timeout') else None)
             self.portfolio_s += time.time() - t0
             self.backends.add(backend)
             if res == 'unsat':
